@@ -461,7 +461,7 @@ Lemma roundtrip_tri (m : mesh) :
   exists s, save_tri C rnd c0 m = Ok s /\ load_tri C ceq s = Ok (reloaded m).
 Proof.
   intros Hwf Hnv Hnt Hd Hc. unfold save_tri. rewrite local_triangles_wf by auto.
-  eexists; split; [reflexivity|]. unfold load_tri.
+  eexists; split; [reflexivity|]. unfold load_tri, parse_tri.
   set (LT := map (tri_map (locf (mv m))) (tr m)).
   cbn [app]. rewrite rd_word_hit. cbn [obind]. rewrite rd_nat_hit by auto. cbn [obind].
   match goal with |- context [flat_map (vline C rnd true) _ ++ ?R] =>
@@ -481,7 +481,7 @@ Lemma roundtrip_off (m : mesh) :
   exists s, save_off C rnd c0 m = Ok s /\ load_off C ceq s = Ok (reloaded m).
 Proof.
   intros Hwf Hnv Hnt Hd Hc. unfold save_off. rewrite local_triangles_wf by auto.
-  eexists; split; [reflexivity|]. unfold load_off.
+  eexists; split; [reflexivity|]. unfold load_off, parse_off.
   set (LT := map (tri_map (locf (mv m))) (tr m)).
   cbn [app]. unfold rd_str at 1. cbn [skip_ws obind skipc].
   rewrite rd_nat_hit by auto. cbn [obind]. rewrite rd_nat_hit by auto. cbn [obind].
@@ -528,6 +528,48 @@ Proof.
   rewrite Hj2. simpl. apply rt_build; auto.
 Qed.
 
+
+
+(* ------------------------------------------------------------------ add_vertices without any premise on the points *)
+Lemma add_vertices_spec vs : forall g, geom_distinct g ->
+  let (g', im) := add_vertices C ceq g vs in
+  geom_distinct g' /\ length im = length vs /\ (exists ext, g' = g ++ ext) /\
+  forall k, k < length vs -> nth k im 0 < length g' /\
+    (nth (nth k im 0) g' v0 = nth k vs v0 \/ veq (nth (nth k im 0) g' v0) (nth k vs v0) = true).
+Proof.
+  induction vs as [|v r IH]; intros g Hg; simpl.
+  - split; [auto|split; [auto|split; [exists []; rewrite app_nil_r; auto|intros k Hk; simpl in Hk; lia]]].
+  - pose proof (add_vertex_distinct g v Hg) as Hd. pose proof (add_vertex_stored g v) as Hs.
+    destruct (add_vertex C ceq g v) as [g1 i]. simpl in Hd. destruct Hs as [Hi [Hst [ext1 He1]]].
+    specialize (IH g1 Hd). destruct (add_vertices C ceq g1 r) as [g2 im].
+    destruct IH as [D2 [L2 [[ext2 He2] K2]]].
+    split; auto. split; [simpl; auto|]. split; [exists (ext1 ++ ext2); rewrite app_assoc, <- He1; auto|].
+    intros k Hk. destruct k as [|k']; simpl.
+    + subst g2. rewrite app_length. split; [lia|]. rewrite app_nth1 by auto. auto.
+    + apply K2. lia.
+Qed.
+
+
+(* points of one file (or of a file and of the geometry as it is) that are equal for operator== become ONE vertex:
+   the premise-free counterpart of mesh_roundtrip (operator== assumed to be an equivalence, as it is on numbers) *)
+Lemma repeated_points_merge vs g :
+  (forall a, veq a a = true) -> (forall a b, veq a b = true -> veq b a = true) ->
+  (forall a b c, veq a b = true -> veq b c = true -> veq a c = true) ->
+  geom_distinct g ->
+  forall i j, i < length vs -> j < length vs -> veq (nth i vs v0) (nth j vs v0) = true ->
+  nth i (snd (add_vertices C ceq g vs)) 0 = nth j (snd (add_vertices C ceq g vs)) 0.
+Proof.
+  intros Hrefl Hsym Htr Hg i j Hi Hj Hij.
+  pose proof (add_vertices_spec vs g Hg) as H. destruct (add_vertices C ceq g vs) as [g' im]. simpl.
+  destruct H as [D [_ [_ K]]]. destruct (K i Hi) as [Li Si]. destruct (K j Hj) as [Lj Sj].
+  set (p := nth i im 0) in *. set (q := nth j im 0) in *.
+  assert (Ei : veq (nth p g' v0) (nth i vs v0) = true) by (destruct Si as [->|]; auto).
+  assert (Ej : veq (nth q g' v0) (nth j vs v0) = true) by (destruct Sj as [->|]; auto).
+  assert (Epq : veq (nth p g' v0) (nth q g' v0) = true) by (eapply Htr; [eapply Htr; eauto|apply Hsym; auto]).
+  destruct (Nat.lt_trichotomy p q) as [Hlt|[Heq|Hgt]]; auto.
+  - rewrite (D p q) in Epq by lia. discriminate.
+  - apply Hsym in Epq. rewrite (D q p) in Epq by lia. discriminate.
+Qed.
 
 (* ------------------------------------------------------------------ VTK writer *)
 Lemma vtk_structure (m : mesh) : wf_mesh m ->
@@ -714,4 +756,17 @@ Proof.
     repeat destruct Hg as [Hg|Hg]; try contradiction; subst; simpl; auto 10.
   - eexists. eexists. split; [vm_compute; reflexivity|]. split; [vm_compute; reflexivity|].
     vm_compute. repeat split; reflexivity.
+Qed.
+
+(* a file that lists a point twice (the two centre points of the fan collide once written), loaded into a fresh mesh
+   object and into one whose geometry already holds (0,0,0) and (7,7,7): the same mesh up to the numbering of the geometry *)
+Lemma seam_fresh_and_reused :
+  exists s a b, save_tri nat rnd_ex' 0 fan' = Ok s /\
+    load_tri nat Nat.eqb s = Ok a /\ reload_tri nat Nat.eqb [(0, 0, 0); (7, 7, 7)] s = Ok b /\
+    length (gv a) = 5 /\ mv a = [0; 0; 1; 2; 3; 4] /\
+    length (gv b) = 6 /\ mv b = [2; 2; 0; 3; 4; 5] /\
+    local_triangles a = local_triangles b /\ coords nat 0 a = coords nat 0 b.
+Proof.
+  eexists. eexists. eexists. split; [vm_compute; reflexivity|]. split; [vm_compute; reflexivity|].
+  split; [vm_compute; reflexivity|]. vm_compute. repeat split; reflexivity.
 Qed.
